@@ -409,7 +409,12 @@ impl TypeChecker {
         if let Some(id) = self.symbols.lookup(&name) {
             if let Some(sym) = self.symbols.get(id) {
                 match &sym.kind {
-                    SymbolKind::Type(_) | SymbolKind::Function(_) | SymbolKind::Trait(_) | SymbolKind::Variant(_) => {
+                    // (a Variable at collection time is a module-level const of a dependency)
+                    SymbolKind::Type(_)
+                    | SymbolKind::Function(_)
+                    | SymbolKind::Trait(_)
+                    | SymbolKind::Variant(_)
+                    | SymbolKind::Variable(_) => {
                         // Already have a real definition, don't overwrite with Module placeholder
                         return;
                     }
